@@ -96,6 +96,8 @@ def gen_case(rng, tier, est=None, seeded=None):
             "variances": L(sig6((X.std(axis=0) + 1e-3 * smax) ** 2 * rs.uniform(0.5, 2, size=(k, d)))),
             "weights": L(gen_simplex(rng, k)),
             "uv": rng.random() < 0.5, "uw": rng.random() < 0.5,
+            # an occupancy threshold that some components do not reach
+            "mvut": rng.choice([None, None, None, 0.5, 1.5, 3.0]),
             "vfloor": float(sig6(1e-3 * smax * smax))})
         n_items, labelled = n, False
     elif est in ("isv", "jfa"):
@@ -317,6 +319,8 @@ def _fit(case, o, rec, label):
     if est in ("gmm", "gmm_kminit"):
         kw = dict(max_fitting_steps=cfg["steps"], convergence_threshold=None, update_means=True,
                   update_variances=cfg["uv"], update_weights=cfg["uw"], random_state=cfg["rs"])
+        if cfg.get("mvut") is not None:
+            kw["mean_var_update_threshold"] = cfg["mvut"]
         if est == "gmm_kminit":
             init = cfg["init_method"] if cfg["seeded"] else A(cfg["init"])
             km = KMeansMachine(cfg["k"], init_method=init, max_iter=cfg.get("km_iter", 2),
